@@ -341,8 +341,8 @@ pub fn run(input: &Value) -> Case {
             j["impl"] = json!(cells.iter().map(|(c, f)| json!([c, j_face(f)])).collect::<Vec<_>>());
             let nsgr = input["hist"].as_array().map(|a| a.iter().filter(|h| h["sgr"].is_string()).count()).unwrap_or(0);
             tags.push(format!("sgr_seqs={}", nsgr.min(10)));
-            if input["known_class"].is_array() {
-                tags.push("known_class".into());
+            if input["inexpressible"].as_bool().unwrap_or(false) || input["known_class"].is_array() {
+                tags.push("inexpressible-param".into());
             }
             if input["malformed"].as_bool().unwrap_or(false) {
                 tags.push("malformed".into());
@@ -654,7 +654,7 @@ pub fn generate(rng: &mut Rng, n: usize, tier: &str) -> Vec<Value> {
                 let len = hist_bytes(&hist).len();
                 let mut c = json!({"kind": "write", "f0": g_face(rng), "hist": hist, "cuts": rand_cuts(rng, len), "malformed": true});
                 if known {
-                    c["known_class"] = json!(["sgr-inexpressible"]);
+                    c["inexpressible"] = json!(true);
                 }
                 v.push(c);
             }
@@ -664,7 +664,7 @@ pub fn generate(rng: &mut Rng, n: usize, tier: &str) -> Vec<Value> {
                 let f0 = if rng.chance(1, 2) { json!({"fg": null, "bg": null, "ul": 0, "flags": 0}) } else { g_face(rng) };
                 let mut c = json!({"kind": "write", "f0": f0, "hist": hist, "cuts": rand_cuts(rng, len)});
                 if known {
-                    c["known_class"] = json!(["sgr-inexpressible"]);
+                    c["inexpressible"] = json!(true);
                 }
                 v.push(c);
             }
